@@ -4,7 +4,7 @@
    continuation, [resume] = the next ParseTokens call), regexes generated from lexer.go. *)
 From Coq Require Import ZArith List Bool.
 From ZV Require Import Model.Regex Generated.LexTables Model.Lexer Model.Reader Model.TokScan Proofs.LexerProofs Proofs.ReaderProofs
-  Proofs.RegexProofs Proofs.ReaderTotal Proofs.LexerWF Proofs.ReaderUnfinished Proofs.SugarTokens Proofs.ScanSim Proofs.LexerBC Proofs.Unfinished.
+  Proofs.RegexProofs Proofs.ReaderTotal Proofs.LexerWF Proofs.ReaderUnfinished Proofs.SugarTokens Proofs.ScanSim Proofs.LexerBC Proofs.Unfinished Proofs.OpSpacing Proofs.ReaderFinal.
 Import ListNotations.
 Open Scope Z_scope.
 
@@ -43,18 +43,27 @@ Proof. exact ReaderProofs.resume_is_rerun. Qed.
 Print Assumptions resume_is_rerun.
 
 (* ---- 4. chunk independence: ANY number of cuts at ANY positions.
-   pieces_ok: every proper prefix of the marked pieces lexes without error (after a lexer error the
-   real protocol is over); for strict = false also: the text lexes without error and has no
-   quote-sugar / backslash token.
+   No side condition for the parser as it is (strict = true): when the lexer reports an error inside
+   some piece the outcome is the hard error (error_is_final: with the lexer's error flag set the
+   parse ends in a final outcome — ReaderFinal.ptop_fin, a mutual induction over the parser — and a
+   final outcome absorbs every later delivery: the session is over, as for the REPL and the check's
+   delivery protocol, which stop at the first hard error), and the whole text gives the same error.
+   pieces_ok (used for strict = false only): every proper prefix of the marked pieces lexes without
+   error, the text lexes without error and has no quote-sugar / backslash token.
    strict = true is the parser as it is now: chunk_independent is the property.
    chunk_independent_before_fix* : the same statement about the parser before the fix holds only
    without quote sugar / backslash, and is false otherwise (the witnesses were replayed on the real
    code before the fix and are kept in the harness as edge texts). ---- *)
 Theorem chunk_independent : forall cfix fuel pieces,
-  match mark_last pieces with [] => True | first :: rest => pieces_ok true first rest end ->
   parse_pieces true cfix fuel pieces = parse_whole true cfix fuel (concat pieces).
-Proof. intros cfix fuel pieces; exact (ReaderProofs.pieces_is_whole true cfix fuel pieces). Qed.
+Proof. exact ReaderFinal.pieces_is_whole_all. Qed.
 Print Assumptions chunk_independent.
+
+Theorem error_is_final : forall cfix fuel p t x,
+  Good cfix fuel p t -> lres_ok (lex_all init_lstate t) = false ->
+  ps_out (p_deliver true cfix p x) = ps_out p /\ fin (ps_out p) = true.
+Proof. exact ReaderFinal.error_is_final. Qed.
+Print Assumptions error_is_final.
 
 Theorem chunk_independent_before_fix_partial : forall cfix fuel pieces,
   match mark_last pieces with [] => True | first :: rest => pieces_ok false first rest end ->
@@ -225,6 +234,57 @@ Theorem sugar_tokens : forall t,
      lex_text (126 :: r :: t) = (mkTok TTilde [] :: fst (lex_text (r :: t)), snd (lex_text (r :: t)))).
 Proof. exact SugarTokens.sugar_tokens. Qed.
 Print Assumptions sugar_tokens.
+
+(* ---- 9. blanks around an operator do not change the tokens (for C06).  Complete texts
+   (final newline); the context a must leave the lexer in normal mode (it does not end inside a
+   string / comment / literal nor with an operator rune, ':' , '/' or '~': then the operator would
+   merge with it); G = * < > = ! & | ; G2 = == <= >= <- *= ** != <! && || ; G2s = ++ -- += -= ->
+   (g2_complete: with /= and := these are all the two-rune strings BuiltinOpRegex accepts).
+   A one-rune operator must not merge with the first rune of b into a two-rune operator (stated with
+   the generated regex itself); a two-rune operator needs no condition on b.
+   Not covered: / /= := (they go through the first-slash and fresh-assign-or-colon modes). ---- *)
+Theorem op_spacing : forall a b s,
+  lex_all init_lstate a = LOk s -> l_state s = LNormal ->
+  (forall c, In c G -> re_match re_BuiltinOpRegex [c; hd 10 (b ++ [10])] = false ->
+     lex_text (a ++ [c] ++ b ++ [10]) = lex_text (a ++ [32; c; 32] ++ b ++ [10])) /\
+  (forall c c2, In (c, c2) G2 ->
+     lex_text (a ++ [c; c2] ++ b ++ [10]) = lex_text (a ++ [32; c; c2; 32] ++ b ++ [10])).
+Proof.
+  intros a b s Ha Hs. split.
+  - intros c Hc Hn. exact (OpSpacing.op_spacing_single a b c s Ha Hs Hc Hn).
+  - intros c c2 Hc. exact (OpSpacing.op_spacing_double a b c c2 s Ha Hs Hc).
+Qed.
+Print Assumptions op_spacing.
+
+(* + and - : the exponent rule (a sign right after the e/E of a number continues the number) and the
+   sign rule (a minus after a rune of canStartSignedNumberAfter and before a digit or '.' starts a
+   negative literal) are part of the language; outside them blanks do not matter.
+   twoback (ring_push c s) is the rune before the operator (0 at the start of the text). *)
+Theorem op_spacing_sign : forall a b s,
+  lex_all init_lstate a = LOk s -> l_state s = LNormal ->
+  (forall c, c = 43 \/ c = 45 ->
+     ((twoback (ring_push c s) =? 101) || (twoback (ring_push c s) =? 69)) && sci_prefix_ok (l_buffer s) = false ->
+     (c =? 45) && can_start_signed_after (twoback (ring_push c s)) &&
+       (re_match re_FloatRegex [c; hd 10 (b ++ [10])] || re_match re_DecimalRegex [c; hd 10 (b ++ [10])]) = false ->
+     re_match re_BuiltinOpRegex [c; hd 10 (b ++ [10])] = false ->
+     lex_text (a ++ [c] ++ b ++ [10]) = lex_text (a ++ [32; c; 32] ++ b ++ [10])) /\
+  (forall c c2, In (c, c2) G2s ->
+     ((twoback (ring_push c s) =? 101) || (twoback (ring_push c s) =? 69)) && sci_prefix_ok (l_buffer s) = false ->
+     lex_text (a ++ [c; c2] ++ b ++ [10]) = lex_text (a ++ [32; c; c2; 32] ++ b ++ [10])).
+Proof.
+  intros a b s Ha Hs. split.
+  - intros c Hc H1 H2 H3. exact (OpSpacing.op_spacing_sign_single a b c s Ha Hs Hc H1 H2 H3).
+  - intros c c2 Hc H1. exact (OpSpacing.op_spacing_sign_double a b c c2 s Ha Hs Hc H1).
+Qed.
+Print Assumptions op_spacing_sign.
+
+(* x*y and x * y; a<=b and a <= b; 1e-5 is one number but x-1 after a symbol is x - 1 *)
+Example ex_op_spacing :
+  lex_text [120; 42; 121; 10] = lex_text [120; 32; 42; 32; 121; 10] /\
+  lex_text [97; 60; 61; 98; 10] = lex_text [97; 32; 60; 61; 32; 98; 10] /\
+  lex_text [120; 45; 49; 10] = lex_text [120; 32; 45; 32; 49; 10] /\
+  lex_text [40; 45; 49; 41; 10] <> lex_text [40; 32; 45; 32; 49; 41; 10].
+Proof. vm_compute. repeat split; try reflexivity. discriminate. Qed.
 
 (* ---- non-vacuity ---- *)
 Example ex_tokens : map t_kind (fst (lex_text [40; 97; 32; 45; 49; 32; 49; 101; 45; 53; 41; 10]))
